@@ -76,7 +76,7 @@ def make_code(rng, c):
     if cls == 'convert' and rng.random() < 0.3:
         return b''       # (a cart without code: PICO-8 saves it without a Lua section)
     if cls in ('typical', 'stream_entry', 'convert', 'version0', 'cli_entry'):
-        return carts.simple_lua(rng, rng.choice((40, 300, 2000, 6000)))
+        return carts.varied_lua(rng, rng.choice((40, 300, 2000, 6000)))
     if cls == 'glyphs':
         return carts.simple_lua(rng, rng.choice((100, 1500)), glyphs=True)
     if cls == 'crlf':
